@@ -12,6 +12,11 @@ ALL_VERSIONS = ["2.7", "3.6", "3.7", "3.8", "3.9", "3.10", "3.11", "3.12", "3.13
 HOSTS = ["3.8", "3.9", "3.10", "3.11", "3.12", "3.13"]
 
 
+# workers create their scratch directories inside this one (set by the driver's Ctx), so that
+# removing it cleans up after workers that were killed
+DEFAULT_SCRATCH = [None]
+
+
 class HarnessError(Exception):
     """Infrastructure problem: never a property violation (exit 2)."""
 
@@ -63,6 +68,8 @@ class Worker:
         env["PYTHONHASHSEED"] = "0"
         env["PYTHONDONTWRITEBYTECODE"] = "1"
         env["VERIF_REPO"] = REPO
+        if DEFAULT_SCRATCH[0]:
+            env["VF_SCRATCH"] = DEFAULT_SCRATCH[0]
         env["PYTHONIOENCODING"] = "utf-8"
         env.pop("PYTHONPATH", None)
         if self.role == "host":
